@@ -64,6 +64,14 @@ pub fn load_bdd_bundle(
 
         let bdd_string = read_zipped_file(&mut archive, filename.as_str())?;
         let bdd = Bdd::from_string(bdd_string.as_str());
+        // the BDD must be compatible with the given context (e.g., same number of extra symbolic variables)
+        if bdd.num_vars() != symbolic_context.bdd_variable_set().num_vars() {
+            return Err(format!(
+                "BDD in `{filename}` uses {} symbolic variables, but {} are expected (archive was created for a different model or number of HCTL variables).",
+                bdd.num_vars(),
+                symbolic_context.bdd_variable_set().num_vars()
+            ));
+        }
         let set = GraphColoredVertices::new(bdd, symbolic_context);
         loaded_sets.insert(name.to_string(), set);
     }
